@@ -173,6 +173,9 @@ public:
     std::vector<long>   trace;        // +id alloc, -id free, 0 foreign/double free, LONG_MIN refused
     std::unordered_map<void*, long>  live;    // pointer -> id
     std::unordered_map<void*, long>  freed;   // quarantined (never reused): pointer -> id
+    std::unordered_map<void*, size_t> sizes;  // size of every block ever handed out (quarantined blocks are poisoned)
+    bool        discarded = false;            // the application has discarded this manager: the library must not touch it again
+    long        afterDiscard = 0;             // allocate/deallocate calls after discard()
     std::string failSite;
     bool        reallyFree = std::getenv("C19_REALLY_FREE") != 0;
     bool        recordArena = false;                 // count run: which arena allocators created blocks
@@ -188,8 +191,18 @@ public:
 
     void arm(int ph, long k, int exc) { failPhase = ph; failAt = k; fired = false; excKind = exc; }
 
+    // the application gives the manager up after a failure: everything still outstanding is gone with it (poisoned, as a real
+    // arena manager would have unmapped it); any later call into this manager is a violation
+    void discard()
+    {
+        discarded = true;
+        for (std::unordered_map<void*, long>::const_iterator i = live.begin(); i != live.end(); ++i)
+            std::memset(i->first, 0xDD, sizes[i->first]);
+    }
+
     virtual void* allocate(size_type size)
     {
+        if (discarded) ++afterDiscard;
         ++allocs[phase];
         if (!fired && failAt != 0 && phase == failPhase && allocs[phase] == failAt)
         {
@@ -226,6 +239,7 @@ public:
         long id = ++nextId;
         freed.erase(p);             // only possible in really-free mode (address reuse)
         live[p] = id;
+        sizes[p] = size;
         if (recordSites) sites[id] = stackString(2, 12);
         if (tracing) trace.push_back(id);
         return p;
@@ -234,6 +248,7 @@ public:
     virtual void deallocate(void* p)
     {
         if (p == 0) { ++nullFrees; return; }
+        if (discarded) { ++afterDiscard; return; }
         std::unordered_map<void*, long>::iterator it = live.find(p);
         if (it == live.end())
         {
@@ -244,6 +259,7 @@ public:
         if (tracing) trace.push_back(-it->second);
         freed[p] = it->second;      // quarantine: the address is never handed out again in this process
         live.erase(it);
+        if (!reallyFree) std::memset(p, 0xDD, sizes[p]);   // poisoned: a read through a stale pointer sees garbage, not the old object
         if (reallyFree) std::free(p);   // sanitizer runs (C19_REALLY_FREE=1): let ASan see use-after-free
     }
 
@@ -685,6 +701,11 @@ static int initCommand(int argc, char** argv)
     Scenario sc; sc.xsl = slurp(argv[2]); sc.xml = slurp(argv[3]); sc.direct = false;
     long from = atol(argv[4]), to = atol(argv[5]); int jobs = atoi(argv[6]);
     unsigned long expect = strtoul(argv[7], 0, 10);
+    // retry:   refuse request k of initialize(); initialize() again with the SAME manager; transform; terminate
+    // discard: refuse request k of initialize(); the application DISCARDS that manager (outstanding blocks poisoned, any later call
+    //          into it counted); initialize() with a FRESH manager; transform; terminate
+    // term:    initialize(); transform; terminate() with ITS request k refused
+    const std::string mode = argc >= 9 ? argv[8] : "retry";
     std::vector<std::pair<pid_t, std::pair<int, long> > > running;
     long next = from;
     while (next <= to || !running.empty())
@@ -707,18 +728,30 @@ static int initCommand(int argc, char** argv)
                 xercesc::XMLPlatformUtils::Initialize();
                 FaultManager* fm = new FaultManager;
                 fm->phase = P_CTOR;
-                fm->arm(P_CTOR, next, FaultManager::EXC_OOM);
+                if (mode != "term") fm->arm(P_CTOR, next, FaultManager::EXC_OOM);
                 stage("init");
                 std::string first = guarded([&]() { XalanTransformer::initialize(*fm); return 0; });
                 std::string second = "-";
-                if (first != "ok")
+                FaultManager* cur = fm;             // the manager the library is initialised with
+                size_t left = 0;
+                if (first != "ok" && mode == "discard")
+                {
+                    stage("discard");
+                    left = fm->live.size();
+                    fm->discard();
+                    cur = new FaultManager;
+                    cur->phase = P_CTOR;
+                    stage("retry");
+                    second = guarded([&]() { XalanTransformer::initialize(*cur); return 0; });
+                }
+                else if (first != "ok")
                 {
                     stage("retry");
                     fm->failAt = 0;
                     second = guarded([&]() { XalanTransformer::initialize(*fm); return 0; });
                 }
                 const long nInit = fm->allocs[P_CTOR];
-                std::string work = "skipped"; unsigned long h = 0;
+                std::string work = "skipped", term = "-"; unsigned long h = 0; long nTerm = 0;
                 if (first == "ok" || second == "ok")
                 {
                     stage("use");
@@ -728,13 +761,16 @@ static int initCommand(int argc, char** argv)
                     runScenario(*m2, sc, r, &warn);
                     work = r.what[P_TRANSFORM]; h = hashOf(r.output);
                     stage("terminate");
-                    fm->phase = P_DESTROY;
-                    XalanTransformer::terminate();
+                    cur->phase = P_DESTROY;
+                    if (mode == "term") cur->arm(P_DESTROY, next, FaultManager::EXC_OOM);
+                    term = guarded([&]() { XalanTransformer::terminate(); return 0; });
+                    nTerm = cur->allocs[P_DESTROY];
                 }
                 std::ostringstream o;
                 o << "init1=" << first << " init2=" << second << " n_init=" << nInit << " work=" << work
-                  << " same=" << (h == expect ? 1 : 0) << " live=" << fm->live.size() << " foreign=" << fm->foreign
-                  << " double=" << fm->dbl << "\n";
+                  << " same=" << (h == expect ? 1 : 0) << " term=" << term << " n_term=" << nTerm << " fired=" << (cur->fired || fm->fired ? 1 : 0)
+                  << " live=" << cur->live.size() << " foreign=" << (cur->foreign + (cur != fm ? fm->foreign : 0))
+                  << " double=" << (cur->dbl + (cur != fm ? fm->dbl : 0)) << " left=" << left << " afterdiscard=" << fm->afterDiscard << "\n";
                 emit(o.str());
                 if (fm->recordSites)
                     for (std::unordered_map<void*, long>::const_iterator li = fm->live.begin(); li != fm->live.end(); ++li)
